@@ -225,7 +225,9 @@ fn enabled(inst: &Instance, hist: &[Act], r: &RunResult) -> Vec<Act> {
         let (total, streak) = ticks(hist);
         // never let the documented read timeout elapse: (streak + 1) steps must stay below it
         let reach = (streak as u64 + 1) * super::e2::world::TICK_SECS;
-        if total < inst.tick_budget && (reach < insim::net::DEFAULT_TIMEOUT_SECS || (inst.allow_timeout && !inst.script_writes && reach < insim::net::DEFAULT_TIMEOUT_SECS + super::e2::world::TICK_SECS)) {
+        // (no timer runs while the connection waits on the write half - unless the call is a handshake, which has its own)
+        let on_write = r.asked == Some(Side::Write) && !inst.isi_via_handshake && inst.handshake.is_none();
+        if total < inst.tick_budget && (on_write || reach < insim::net::DEFAULT_TIMEOUT_SECS || (inst.allow_timeout && !inst.script_writes && reach < insim::net::DEFAULT_TIMEOUT_SECS + super::e2::world::TICK_SECS)) {
             out.push(Act::Tick);
         }
     }
